@@ -88,6 +88,10 @@ pub fn run_chain_opt(t: &mut Tracer, orig: &Value, method: &str, same_host: bool
     let body_m = matches!(method, "POST" | "PUT" | "PATCH");
     let mut b = Request::builder().method(Method::from_bytes(method.as_bytes()).unwrap()).uri(uri_text(orig));
     b = b.header("authorization", "Basic b3JpZzpwdw==").header("cookie", "session=orig").header("x-keep", "1");
+    if orig["q"] != "-" || hops.len() % 2 == 0 {
+        // the same credentials header on more than one line
+        b = b.header("cookie", "second=line").header("x-between", "1").header("authorization", "Bearer second-line").header("cookie", "third=line");
+    }
     if body_m {
         b = b.header("content-length", "0");
     }
